@@ -153,7 +153,8 @@ def _key(x):
 def _norm(a):
   if hasattr(a, 'count') and hasattr(a, 'mean') and hasattr(a, 'var'):
     import numpy as np
-    return tuple(round(float(np.asarray(v).reshape(-1)[0]), 9) for v in (a.count, a.mean, a.var))
+    vals = [float(np.asarray(v).reshape(-1)[0]) for v in (a.count, a.mean, a.var)]
+    return tuple('nan' if v != v else round(v, 9) for v in vals)
   if isinstance(a, dict) and len(a) == 1 and hasattr(list(a.values())[0], 'mean'):
     return _norm(list(a.values())[0])
   if isinstance(a, dict):
